@@ -229,13 +229,13 @@ def run_c27(ctx):
                 # modes and the expensive binary framing breakers (type change) are sampled at late positions
                 if c["kind"] != "forge" and c["mode"] != "plain" and c["pos"] in late and rnd.random() < 0.6:
                     continue
-                if ser == "bin" and c["field"] == "type" and c["pos"] in ("genesis", "grounding") and c["mode"] != "plain":
-                    continue
+                if ser == "bin" and c["field"] == "type" and c["pos"] in ("genesis", "grounding"):
+                    continue  # (the binary decoder allocates GiBs on these; thorough runs them)
             d = dict(c)
             d.update(ser=ser, permille=0, bit=0)
             cases.append(d)
         # (a flip in a binary length prefix derails the decoder into GiB-sized allocations: fewer of those)
-        nb = ctx.pick(4, 40) if ser == "bin" else ctx.pick(10, 80)
+        nb = ctx.pick(2, 40) if ser == "bin" else ctx.pick(10, 80)
         for pos in POSITIONS:
             for _ in range(nb):
                 cases.append({"kind": "bytes", "pos": pos, "field": "", "field2": "", "mut": "", "mode": "plain",
